@@ -292,7 +292,8 @@ Fixpoint run_s (st : state) (l : list (bool * env * storage_beh)) : list (bool *
          0 for a topic the module does not know; error code => flag; ErrNoError without offsets => panic).
    `xenv` drops both: `x_env` keeps Topics, Partitions, Leader AT REFRESH and the answers for asked blocks;
    `x_leader_req` is Leader in generateOffsetRequests; `x_omit b t p`: b's response lacks the asked block (t, p);
-   `x_extra b`: the blocks of b's response that were not asked (topic, partition, (KError, Offsets)).
+   `x_extra b`: the blocks of b's response that were not asked (topic, partition, (KError, Offsets)); a response is a
+   map, so the keys (topic, partition) of one broker's extras are meant to be distinct.
    `xcycle` is getOffsets against such a world; under the two NAMED hypotheses it is `cycle` (ClusterModProofs.
    xcycle_stable).  The run-level theorems are stated over `trace`, i.e. for worlds satisfying (a) and (b); the
    one-cycle theorems x* of ClusterModProofs.v and the probe's `sc3` cases cover worlds that do not. *)
